@@ -593,9 +593,7 @@ func (f *frame) loopEffects(li *loopInfo) *effects {
 			directEffects(in, e, f.localName, li.body)
 			switch x := in.(type) {
 			case *ssa.Defer:
-				if !f.t.isNoopCall(&x.Call) {
-					e.all, e.trace = true, true
-				}
+				// pushing a deferred call has no effect by itself; a back edge after a pushed defer is an obligation (backEdge)
 			case *ssa.Go:
 			case ssa.CallInstruction:
 				f.t.siteEffects(f, x.Common(), x, e, S)
@@ -603,4 +601,132 @@ func (f *frame) loopEffects(li *loopInfo) *effects {
 		}
 	}
 	return e
+}
+
+
+// ---------------------------------------------------------------------------
+// closure values stored in struct fields: which function literals can a field hold?
+
+type fieldKey struct {
+	typ   string
+	field string
+}
+
+// fieldClosureCandidates finds, by a small flow analysis over the whole program, the function values that are
+// stored into the given struct field: directly (MakeClosure / function constant) or through parameters of
+// functions whose call sites pass such values (depth-limited). ok=false if some stored value is of unknown origin.
+func (P *Program) fieldClosureCandidates(T types.Type, field string) ([]*ssa.Function, bool) {
+	if P.fieldCands == nil {
+		P.fieldCands = map[fieldKey]*candSet{}
+	}
+	k := fieldKey{mangleType(T), field}
+	if cs, ok := P.fieldCands[k]; ok {
+		return cs.fns, cs.closed
+	}
+	cs := &candSet{closed: true}
+	P.fieldCands[k] = cs
+	seen := map[*ssa.Function]bool{}
+	add := func(fn *ssa.Function) {
+		if !seen[fn] {
+			seen[fn] = true
+			cs.fns = append(cs.fns, fn)
+		}
+	}
+	var origin func(v ssa.Value, depth int)
+	origin = func(v ssa.Value, depth int) {
+		switch x := v.(type) {
+		case *ssa.MakeClosure:
+			if fn, ok := x.Fn.(*ssa.Function); ok {
+				add(fn)
+				return
+			}
+		case *ssa.Function:
+			add(x)
+			return
+		case *ssa.Const:
+			if x.Value == nil {
+				return // nil function
+			}
+		case *ssa.ChangeType:
+			origin(x.X, depth)
+			return
+		case *ssa.Parameter:
+			if depth >= 3 {
+				cs.closed = false
+				return
+			}
+			g := x.Parent()
+			idx := -1
+			for i, p := range g.Params {
+				if p == x {
+					idx = i
+				}
+			}
+			found := false
+			for fn := range P.allFns() {
+				for _, b := range fn.Blocks {
+					for _, in := range b.Instrs {
+						ci, ok := in.(ssa.CallInstruction)
+						if !ok {
+							continue
+						}
+						c := ci.Common()
+						if c.StaticCallee() != g || c.IsInvoke() {
+							continue
+						}
+						if idx < len(c.Args) {
+							found = true
+							origin(c.Args[idx], depth+1)
+						}
+					}
+				}
+			}
+			if !found && g.Object() != nil && g.Object().Exported() {
+				// exported function without a call site in the program: callers outside are not visible
+			}
+			return
+		}
+		cs.closed = false
+	}
+	for fn := range P.allFns() {
+		for _, b := range fn.Blocks {
+			for _, in := range b.Instrs {
+				st, ok := in.(*ssa.Store)
+				if !ok {
+					continue
+				}
+				fa, ok := st.Addr.(*ssa.FieldAddr)
+				if !ok {
+					continue
+				}
+				_, ST, ok := isStructPtr(fa.X.Type())
+				if !ok || mangleType(ST) != k.typ {
+					continue
+				}
+				if ST.Underlying().(*types.Struct).Field(fa.Field).Name() != field {
+					continue
+				}
+				origin(st.Val, 0)
+			}
+		}
+	}
+	return cs.fns, cs.closed
+}
+
+type candSet struct {
+	fns    []*ssa.Function
+	closed bool
+}
+
+func (P *Program) allFns() map[*ssa.Function]bool {
+	if P.fnSet == nil {
+		P.fnSet = map[*ssa.Function]bool{}
+		for _, fn := range P.Funcs {
+			P.fnSet[fn] = true
+			for _, an := range fn.AnonFuncs {
+				P.fnSet[an] = true
+			}
+		}
+	}
+	return P.fnSet
 }
